@@ -796,6 +796,27 @@ func bitAccessor(field interface{}) (func(uint) bool, bool) {
 }
 
 func matchUnwind(doc bsonkit.Doc, path string, merge, yieldMerge bool, op func(interface{}) error) error {
+	// arrays collected from embedded documents are also matched as a whole
+	// before they are merged
+	if merge {
+		unmerged, nested := bsonkit.All(doc, path, true, false)
+		if arr, ok := unmerged.(bson.A); ok && nested {
+			for _, field := range arr {
+				if _, isArr := field.(bson.A); !isArr {
+					continue
+				}
+				err := op(field)
+				if err == ErrNotMatched {
+					continue
+				} else if err != nil {
+					return err
+				}
+
+				return nil
+			}
+		}
+	}
+
 	// get value
 	value, multi := bsonkit.All(doc, path, true, merge)
 	if arr, ok := value.(bson.A); ok {
